@@ -1074,7 +1074,11 @@ impl Gen {
     }
 
     fn use_for(&mut self, pat: &D) -> D {
-        let counts = if self.rng.chance(70, 100) {
+        let counts = if self.rng.chance(6, 100) {
+            // an ellipsis absorbing a long run of forms (17 .. 40): bodies and binding lists of real programs
+            self.tag("long-ellipsis-run");
+            Some([17 + self.rng.below(24), self.rng.weighted(&[30, 40, 30])])
+        } else if self.rng.chance(70, 100) {
             Some([self.rng.weighted(&[15, 25, 35, 20, 5]), self.rng.weighted(&[15, 30, 35, 20])])
         } else {
             None
